@@ -295,6 +295,12 @@ def main(argv=None):
                 fstat['traceback'] = g.get('traceback')
             undecided.append({'function': g['function'], 'reason': g['reason']})
             functions_ev.append(fstat)
+            # obligations recorded BEFORE generation stopped that are false whatever the rest of the body
+            # does (a write to an attribute the frame cannot contain) are still decided
+            for ob in g['obligations']:
+                if ob.get('definite') and ob['kind'] == 'frame' and (ob.get('result') or {}).get('status') == 'sat':
+                    n_obl += 1
+                    handle_sat(prop, g, ob, clause_key(ob), locked, known, violations, known_hits, undecided, tier, drift, drift_notes)
             continue
         # canary: at least one exit path feasible
         cans = [c for c in canary_results if c['id'].startswith(g['function'] + '|')]
